@@ -35,7 +35,8 @@ class PythonExpression(Expression):
         out += STATUS << True
 
     def argumentize(self, out, flags):
-        return Code(self.source_code)
+        # The code becomes one item of an argument list: `1, 2` is a tuple.
+        return Code(f'({self.source_code.strip()})')
 
 
 class PythonSection:
